@@ -22,6 +22,10 @@ def glue_queries(tier, update):
         qs.append(Query("%s/%s/sym" % (fam, isa), R,
                         dict(harness=HG, units=["erasure_code/ec_highlevel_func.c"], hdefines=hd, unwind=16, witness=True),
                         core=True, family=fam, weight=3))
+        if tier != "quick":  # rows 0..40 symbolic (6 iterations of the 6-row loop)
+            qs.append(Query("%s/%s/sym_rows40" % (fam, isa), R,
+                            dict(harness=HG, units=["erasure_code/ec_highlevel_func.c"], hdefines=hd + ["ROWS_MAX=40"], unwind=43, witness=False),
+                            core=False, family=fam, weight=20))
         # the documented length boundary, concrete (cross-check of the symbolic query; witness per side)
         w = MINLEN[i]
         lens = sorted({0, max(w - 1, 0), w, w + 1})
@@ -36,7 +40,7 @@ def glue_queries(tier, update):
 
 GLUE_INFO = dict(
     functions_encoded=["ec_encode_data_{sse,avx,avx2,avx512,avx512_gfni,avx2_gfni} (erasure_code/ec_highlevel_func.c, real text)"],
-    bounds={"glue": "rows 0..13 symbolic, k 1..255 symbolic, len any int >= 0 symbolic (plus concrete len in {0,W-1,W,W+1}, "
+    bounds={"glue": "rows 0..13 (thorough: 0..40) symbolic, k 1..255 symbolic, len any int >= 0 symbolic (plus concrete len in {0,W-1,W,W+1}, "
                     "W = 16/16/32/64 documented minimum; GFNI entries have no fallback)"},
     stubs=["ALL gf_{1..6}vect_dot_prod_<isa> / gf_{1..6}vect_mad_<isa> kernels and ec_encode_data[_update]_base are replaced by "
            "recording stubs in harness/C03/h_glue.c: they touch no memory and assert, per call, ISA of the kernel, len/k/vec_i/data "
@@ -44,7 +48,7 @@ GLUE_INFO = dict(
            "after the call every row 0..rows-1 handled exactly once and none beyond; fallback to _base iff len < minimum. "
            "That each kernel computes its N rows correctly is the x86sym half (assume-guarantee)."],
     assumptions=["rows >= 0, k >= 1, len >= 0 (negative sizes are outside the documented domain)"],
-    outside=["rows > 13 in the glue (the 6-row loop is covered for 0,1,2 iterations)"])
+    outside=["rows > 13 (thorough: > 40) in the glue"])
 
 
 def base_queries(tier):
